@@ -11,6 +11,8 @@
 //   alias <buf> <o1> <l1> <o2> <l2>   binary queries with hay = buf[o1,o1+l1), needle = buf[o2,o2+l2), both views
 //                                     into the SAME heap block (aliasing / overlapping / prefix-of-itself)   (block A)
 //   aenum <alphabet> <minlen> <maxlen> <k> <m>   all buffers (index = k mod m): every sub-range M, every pair of sub-ranges A
+//   huge <s> [size]     queries that touch only the ends of a view of 2^31-1 .. 2^32+2^31 zero bytes (read-only
+//                       MAP_NORESERVE mapping), with the short needle s: one block G per size (or only the given size)
 //   "~" instead of a hex string = a default-constructed view (data() == nullptr)
 //   a leading 'v' (vhay, vpair, vcmp5, vmid, valias) additionally prints one line per call.
 // output, one line per block:
@@ -33,6 +35,7 @@
 #include <stdexcept>
 #include <string>
 #include <string_view>
+#include <sys/mman.h>
 #include <unistd.h>
 #include <vector>
 
@@ -406,6 +409,91 @@ static void block_alias(const std::string& buf, size_t o1, size_t l1, size_t o2,
     b.finish();
 }
 
+// ---------------------------------------------------------------- block G: huge sizes
+// Views of 2^31-1 .. 2^32+2^31 bytes over a read-only, never-populated zero mapping (MAP_NORESERVE): size differences
+// and positions beyond 2^31 / 2^32 expose any narrowing of size_t to int / 32 bits. Only calls that touch a few bytes
+// at the start or the end of the view are made (no scan over the view).
+static const size_t G31 = 1ull << 31, G32 = 1ull << 32;
+static const size_t HUGE_SIZES[7] = {G31 - 1, G31, G31 + 1, G32 - 1, G32, G32 + 1, G32 + G31};
+static const char* huge_map() {
+    static const char* m = [] {
+        void* p = mmap(nullptr, G32 + G31 + 65536, PROT_READ, MAP_PRIVATE | MAP_ANONYMOUS | MAP_NORESERVE, -1, 0);
+        return p == MAP_FAILED ? static_cast<const char*>(nullptr) : static_cast<const char*>(p);
+    }();
+    return m;
+}
+static void block_huge(size_t SZ, const std::string& s, bool verbose) {
+    const char* map = huge_map();
+    Block b('G', NONE, s, verbose);
+    b.lh = std::to_string(SZ);
+    if (!map) { printf("B G %s %s 0 0 0 0 | unavailable: mmap failed\n", b.lh.c_str(), b.ls.c_str()); return; }
+    b.T = TV(map, SZ); b.S = SV(map, SZ);
+    const char* cs = s.c_str(); const size_t sn = s.size();
+    bool allzero = true, haszero = false;
+    for (char c : s) { if (c) allzero = false; else haszero = true; }
+    auto dims = [map](Vals& o, const auto& r) { o.size_t_(r.size()); o.push(static_cast<long>(r.data() - map)); };
+
+    b.call("size", {}, [](Vals& o, auto v, auto) { o.size_t_(v.size()); o.size_t_(v.length()); o.boolean(v.empty()); });
+    for (size_t pos : {SZ - 1, SZ, NPOS})
+        b.call("at", {L(pos)}, [=](Vals& o, auto v, auto) { o.ch(v.at(pos)); });
+    b.call("index", {L(SZ - 1)}, [=](Vals& o, auto v, auto) { o.ch(v[SZ - 1]); });
+    b.call("front", {}, [](Vals& o, auto v, auto) { o.ch(v.front()); });
+    b.call("back", {}, [](Vals& o, auto v, auto) { o.ch(v.back()); });
+
+    b.call("compare", {}, [](Vals& o, auto v, auto x) { o.sign(v.compare(x)); });
+    b.call("compare_rev", {}, [](Vals& o, auto v, auto x) { o.sign(x.compare(v)); });
+    b.call("rel_sv", {}, [](Vals& o, auto v, auto x) {
+        o.boolean(v == x); o.boolean(v != x); o.boolean(v < x); o.boolean(v > x); o.boolean(v <= x); o.boolean(v >= x); });
+    b.call("rel_sv_rev", {}, [](Vals& o, auto v, auto x) {
+        o.boolean(x == v); o.boolean(x != v); o.boolean(x < v); o.boolean(x > v); o.boolean(x <= v); o.boolean(x >= v); });
+    b.call("compare_cstr", {}, [=](Vals& o, auto v, auto) { o.sign(v.compare(cs)); });
+    b.call("starts_with", {}, [](Vals& o, auto v, auto x) { o.boolean(v.starts_with(x)); });
+    b.call("ends_with", {}, [](Vals& o, auto v, auto x) { o.boolean(v.ends_with(x)); });
+    b.call("starts_with_char", {0}, [](Vals& o, auto v, auto) { o.boolean(v.starts_with('\0')); });
+    b.call("ends_with_char", {0}, [](Vals& o, auto v, auto) { o.boolean(v.ends_with('\0')); });
+    b.call("ends_with_char", {'a'}, [](Vals& o, auto v, auto) { o.boolean(v.ends_with('a')); });
+
+    for (size_t pos1 : {size_t(0), size_t(1), SZ - 2, SZ - 1, SZ, SZ + 1, NPOS})
+        for (size_t n1 : {size_t(0), size_t(1), size_t(3), G31, G32 + 1, NPOS - 1, NPOS}) {
+            if (pos1 > SZ && n1 != 0 && n1 != NPOS) continue;
+            b.call("compare3", {L(pos1), L(n1)}, [=](Vals& o, auto v, auto x) { o.sign(v.compare(pos1, n1, x)); });
+        }
+    b.call("compare3_cstr", {0, -1}, [=](Vals& o, auto v, auto) { o.sign(v.compare(0, NPOS, cs)); });
+    b.call("compare3_ptr_n", {L(SZ - 1), -1}, [=](Vals& o, auto v, auto) { o.sign(v.compare(SZ - 1, NPOS, cs, sn)); });
+    for (size_t pos1 : {size_t(0), SZ - 1}) for (size_t n1 : {G31, NPOS}) for (size_t pos2 : {size_t(0), size_t(1)}) for (size_t n2 : {size_t(1), NPOS})
+        b.call("compare5", {L(pos1), L(n1), L(pos2), L(n2)}, [=](Vals& o, auto v, auto x) { o.sign(v.compare(pos1, n1, x, pos2, n2)); });
+
+    for (size_t pos : {size_t(0), size_t(1), SZ - 1, SZ, SZ + 1, NPOS})
+        for (size_t n : {size_t(0), size_t(1), G31, G32, SZ - 1, SZ, SZ + 1, NPOS - 1, NPOS}) {
+            if (pos > SZ && n != 0 && n != NPOS) continue;
+            b.call("substr", {L(pos), L(n)}, [=](Vals& o, auto v, auto) { auto r = v.substr(pos, n); dims(o, r); });
+        }
+    for (size_t n : {size_t(0), size_t(1), G31 - 1, SZ - 1, SZ}) {
+        b.call("remove_prefix", {L(n)}, [=](Vals& o, auto v, auto) { v.remove_prefix(n); dims(o, v); });
+        b.call("remove_suffix", {L(n)}, [=](Vals& o, auto v, auto) { v.remove_suffix(n); dims(o, v); });
+    }
+    const size_t CP[6][2] = {{3, 0}, {NPOS, SZ - 2}, {1, SZ - 1}, {NPOS, SZ}, {1, SZ + 1}, {G31, SZ - 1}};   // (n, pos)
+    for (auto& np : CP) {
+        const size_t n = np[0], pos = np[1];
+        b.call("copy", {L(n), L(pos)}, [=](Vals& o, auto v, auto) {
+            char buf[8]; std::memset(buf, '.', sizeof buf);
+            try { size_t r = v.copy(buf, n, pos); o.size_t_(r); } catch (const std::out_of_range&) { o.push(-2); }
+            for (int i = 0; i < 4; ++i) o.ch(buf[i]);
+        });
+    }
+    for (size_t pos : {SZ - 3, SZ - 1, SZ, SZ + 1, NPOS}) {
+        b.call("find", {L(pos)}, [=](Vals& o, auto v, auto x) { o.size_t_(v.find(x, pos)); });
+        b.call("find_first_of", {L(pos)}, [=](Vals& o, auto v, auto x) { o.size_t_(v.find_first_of(x, pos)); });
+        b.call("find_first_not_of", {L(pos)}, [=](Vals& o, auto v, auto x) { o.size_t_(v.find_first_not_of(x, pos)); });
+    }
+    for (size_t pos : {NPOS, SZ - 1, SZ + 5}) {      // only the backward searches that stop at the end of the view
+        if (allzero) b.call("rfind", {L(pos)}, [=](Vals& o, auto v, auto x) { o.size_t_(v.rfind(x, pos)); });
+        if (haszero) b.call("find_last_of", {L(pos)}, [=](Vals& o, auto v, auto x) { o.size_t_(v.find_last_of(x, pos)); });
+        if (!haszero) b.call("find_last_not_of", {L(pos)}, [=](Vals& o, auto v, auto x) { o.size_t_(v.find_last_not_of(x, pos)); });
+    }
+    b.finish();
+}
+
 // ---------------------------------------------------------------- block C: five-argument compare
 static void block_cmp5(const std::string& h, const std::string& s, bool verbose) {
     Block b('C', h, s, verbose);
@@ -451,6 +539,11 @@ int main(int argc, char** argv) {
         // "~" = default-constructed view (data() == nullptr), "-" = empty view with a valid pointer
         if (kd == "hay" && k >= 2) block_hay(unhex(a), verbose, std::strcmp(a, "~") == 0);
         else if (kd == "pair" && k >= 3) block_pair(unhex(a), unhex(b), verbose, std::strcmp(a, "~") == 0, std::strcmp(b, "~") == 0);
+        else if (kd == "huge" && k >= 2) {
+            unsigned long long only = 0;
+            sscanf(line, "%*s %*s %llu", &only);
+            for (size_t SZ : HUGE_SIZES) if (!only || only == SZ) block_huge(SZ, unhex(a), verbose);
+        }
         else if (kd == "mid" && sscanf(line, "%*s %1023s %lu %lu", a, &m1, &m2) == 3) block_mid(unhex(a), m1, m2, verbose);
         else if (kd == "alias" && sscanf(line, "%*s %1023s %lu %lu %lu %lu", a, &m1, &m2, &m3, &m4) == 5)
             block_alias(unhex(a), m1, m2, m3, m4, verbose);
